@@ -308,6 +308,30 @@ func (w *World) hostileRecoveryKind(r *Run, kind string) string {
 		name := w.Base + ".vol99+01.par2"
 		w.Disk.Put(filepath.Join(w.Dir, name), b)
 		r.Logf("hostile garbage file %s", name)
+	case "index-cut-at-packet-boundary", "index-lacks-a-packet":
+		// the index file holds only some of its packets: cut at a packet
+		// boundary (an interrupted copy), or one packet missing in the
+		// middle - every volume file beside it still repeats all of them
+		b, _ := w.Disk.Get(w.Index)
+		pk, _ := ref.ParsePackets(b)
+		if len(pk) < 2 {
+			return "none"
+		}
+		var nb []byte
+		if kind == "index-cut-at-packet-boundary" {
+			keep := 1 + t.Draw(len(pk)-1, "packets-kept")
+			nb = append(nb, b[:pk[keep-1].Offset+pk[keep-1].Length]...)
+		} else {
+			drop := t.Draw(len(pk), "packet-dropped")
+			for i, x := range pk {
+				if i != drop {
+					nb = append(nb, b[x.Offset:x.Offset+x.Length]...)
+				}
+			}
+		}
+		w.Disk.Put(w.Index, nb)
+		r.Probe("index-incomplete")
+		r.Logf("hostile %s: index has %d of %d bytes", kind, len(nb), len(b))
 	case "flip-in-index":
 		b, _ := w.Disk.Get(w.Index)
 		b = append([]byte(nil), b...)
